@@ -18,7 +18,7 @@ VERIF = os.path.dirname(os.path.dirname(os.path.abspath(__file__)))
 
 class LoopSpec:
     def __init__(self, invariant=None, decreases=None, join=None, index=None,
-                 shapes=None, havoc=None):
+                 shapes=None, havoc=None, peel=False):
         if isinstance(invariant, str):
             invariant = [invariant]
         self.invariant = invariant or []
@@ -27,6 +27,8 @@ class LoopSpec:
         self.index = index
         self.shapes = shapes          # name -> example value giving the head shape
         self.havoc = havoc            # extra havoc callable(E, st, env, tag)
+        self.peel = peel              # while: first iteration executed from the
+        #                               entry state (entry shape differs from head shape)
 
 
 class Case:
@@ -47,7 +49,7 @@ class Contract:
                  mod_slots=None, loops=None, cases=None, inline=False,
                  use_at_calls=True, applicable=None, inline_fallback=False,
                  recursive_ok=False, fresh_result=False, may_raise_other=False,
-                 opaque=None, note=""):
+                 opaque=None, merge=True, cuts=None, note=""):
         self.key = key
         self.requires = _lst(requires)
         self.ensures = _lst(ensures)
@@ -67,6 +69,8 @@ class Contract:
         self.recursive_ok = recursive_ok
         self.fresh_result = fresh_result
         self.opaque = list(opaque or [])
+        self.merge = merge
+        self.cuts = cuts or {}
         self.note = note
 
 
@@ -107,6 +111,7 @@ class Engine(ExprMixin, CallMixin, StmtMixin):
         self.ghost_consts = {}
         self.extra_builtins = {}
         self.opaque = {}
+        self.aliases = {}
         self._parse_cache = {}
         self.vcs = []
         self.fresh_n = 0
@@ -128,6 +133,7 @@ class Engine(ExprMixin, CallMixin, StmtMixin):
     def reset_stats(self):
         self.stats = {"feasibility_queries": 0, "merges": 0,
                       "inlined": set(), "contracts_used": set(),
+                      "inlined_uncontracted": set(),
                       "vacuous_loop_bodies": []}
 
     # ------------------------------------------------------------ spec
@@ -198,8 +204,13 @@ class Engine(ExprMixin, CallMixin, StmtMixin):
         self.pending = []
         self.opaque = {n: z3.Function("U_" + n, z3.IntSort(), z3.IntSort())
                        for n in c.opaque}
+        self.merge = c.merge
         st = State()
         params = case.build(self, st)
+        a_ = info.node.args
+        known = {x.arg for x in a_.posonlyargs + a_.args + a_.kwonlyargs}
+        if "_" in params and "_" not in known:
+            params = {k: v for k, v in params.items() if k != "_"}
         env = self.bind_args(info, [], dict(params), st)
         if env is None:
             raise ContractBindingError("case %s does not bind to %s" % (case.name, key))
@@ -268,6 +279,12 @@ class Engine(ExprMixin, CallMixin, StmtMixin):
                 (s_, b), = self.truth(b, s)
                 self.oblige("%s.post[%d]%s" % (self.cur_name, i, tag), s, b,
                             kind="post")
+            if c.modifies_self and c.mod_slots is not None and self.cur_self is not None:
+                now, was = s.obj(self.cur_self), old_heap[self.cur_self.id]
+                for k, val in now.slots.items():
+                    if k not in c.mod_slots and was.slots.get(k, self) is not val:
+                        self.oblige("%s.frame[slot %s unchanged]%s" % (
+                            self.cur_name, k, tag), s, False, kind="frame")
             if c.fresh_result:
                 ok = isinstance(v, Ref) and s.obj(v).fresh
                 self.oblige("%s.frame[result-fresh]%s" % (self.cur_name, tag), s,
